@@ -103,8 +103,13 @@ def c15_r1(ctx):
     if len(dr) != 1:
         ctx.viol((rs.id, "result-shape"), "TicketFactory::result does not take the digest's result once", rs.where(0))
     else:
+        outv = rs.vars_of_operand(dr[0].args[1])
+        # the digest writes into an array that becomes Ticket.sha, or straight into the `sha`
+        # field of the ticket that is returned
+        direct = outv and all(o[-1] == ("field", "sha") for o in outv) and \
+            {o[:-1] for o in outv} == rs.vars_of_operand({"k": "copy", "place": {"local": 0, "proj": []}})
         for (bb, idx, rv, pl) in rs.constructs("ticket::Ticket"):
-            if rs.vars_of_operand(rv["ops"][0]) != rs.vars_of_operand(dr[0].args[1]):
+            if rs.vars_of_operand(rv["ops"][0]) != outv and not direct:
                 ctx.viol((rs.id, "ticket-not-digest"), "the Ticket is not built from the digest output", rs.where(bb, idx))
 
 
@@ -802,8 +807,10 @@ def c19_r3(ctx):
                     if is_call(o) and o[0][3].endswith("into_bytes"):
                         ib = cl.call_at[o[0][2]]
                         fm = format_of_operand(cl, ib.args[0])
-                        if fm and len(fm) == 1 and fm[0][0] == "arg":
-                            for x in cl.origins_of_operand(fm[0][1]):
+                        # format!("{}", s).into_bytes()  or  s.into_bytes()
+                        shown = fm[0][1] if (fm and len(fm) == 1 and fm[0][0] == "arg") else (ib.args[0] if fm is None else None)
+                        if shown is not None:
+                            for x in cl.origins_of_operand(shown):
                                 if is_call(x, "blob::FileStateVec::download_string"):
                                     ds = cl.call_at[x[0][2]]
                                     if cl.origins_of_operand(ds.args[0]) == cl._call_origins(gets[0], (("variant", "Some"), ("field", 0)), frozenset()):
